@@ -1,7 +1,8 @@
 (* C05  Directive order and file layout do not matter.
    Theorem statements only; proofs in Proofs/OrderProofs.v (generic fold lemma, builder,
    ParseDirective), Proofs/OrderSMap.v, Proofs/OrderStages.v (the pipeline stages),
-   Proofs/OrderCmd.v (commands), Proofs/CheckPerm.v (well-formedness), Proofs/LoaderProofs.v.
+   Proofs/OrderReport.v (Query.Into), Proofs/OrderRender.v (the renderer), Proofs/OrderCmd.v
+   (commands), Proofs/OrderLayout.v (include loader), Proofs/OrderWitness.v, Proofs/CheckPerm.v.
 
    Vocabulary.
    - [Permutation sds1 sds2]: the same syntax-level directives in another order (what reordering
@@ -66,34 +67,54 @@ Proof. exact builder_of_perm. Qed.
 Print Assumptions C05_builder_census.
 
 (* ------------------------------------------------------------------ 3. knut balance *)
-From Knut Require Import Model.Price Model.Table Model.Report Proofs.OrderPipeline.
+From Knut Require Import Model.Price Model.Table Model.Report Proofs.OrderPipeline Proofs.OrderReport Proofs.OrderRender.
 
-(* FULL STATEMENT (not proved to the end; the stages up to Query.Into are, see below):
+(* For every balance configuration (window, interval, --last, --diff, --close, valuation, sort
+   order, mappings, remap, account/commodity filters, --show-commodities, either checker): the
+   report of a journal and of any permutation of it are the same table -- cell for cell, hence
+   the same CSV and text bytes -- or both commands fail.  Hypotheses: parser-shaped account
+   names, and the property's exclusion (two price declarations of one day for the same unordered
+   commodity pair are the same declaration).  The error of a failing run legitimately differs
+   (C05_error_depends_on_order), so for failing runs no more than "both fail" holds. *)
+Theorem C05_balance_perm : forall cfg sds1 sds2,
+  Permutation sds1 sds2 -> sd_syntactic sds1 -> no_conflicting_prices sds1 ->
+  ceq eq (balance_table cfg sds1) (balance_table cfg sds2).
+Proof. exact balance_table_perm. Qed.
+Print Assumptions C05_balance_perm.
 
-   Theorem C05_balance_perm : forall cfg sds1 sds2,
-     Permutation sds1 sds2 -> sd_syntactic sds1 -> no_conflicting_prices sds1 ->
-     ceq eq (balance_table cfg sds1) (balance_table cfg sds2).
+Theorem C05_balance_bytes_perm : forall cfg sds1 sds2,
+  Permutation sds1 sds2 -> sd_syntactic sds1 -> no_conflicting_prices sds1 ->
+  ceq eq (balance_csv cfg sds1) (balance_csv cfg sds2) /\
+  forall tc, ceq eq (balance_text cfg tc sds1) (balance_text cfg tc sds2).
+Proof. exact balance_bytes_perm. Qed.
+Print Assumptions C05_balance_bytes_perm.
 
-   i.e. both runs fail, or both print the same table (hence the same CSV and text bytes).  The
-   error itself legitimately differs (C05_error_depends_on_order), so no more than "both fail"
-   can hold for failing runs.
-   What is missing: Query.Into inserts the postings of a day into the report trees; a node's
-   amounts (Model/Report.v [ramounts]) is an association list in first-insertion order, so the
-   two reports are equal only up to the order of these lists, and the renderer (which looks
-   amounts up by key, sorts commodities, and sums with the commutative Dec.add) has to be shown
-   insensitive to that order.
-
-   PROVED (C05_balance_days_perm_partial): for every configuration, the whole pipeline in front
-   of the report -- ParseDirective incl. accrual expansion, the builder, --close's extra days,
-   the checker, ComputePrices, Valuate, Filter, CloseAccounts -- either fails on both inputs or
-   hands Query.Into the same partition and day lists that agree day by day in date, normalized
-   prices and, up to order, in their transactions: the valued postings, the value-adjustment
-   transactions and the closing transactions are the same multiset. *)
-Theorem C05_balance_days_perm_partial : forall cfg sds1 sds2,
+(* the steps.  (a) the pipeline in front of the report -- ParseDirective incl. accrual expansion,
+   the builder, --close's extra days, the checker, ComputePrices, Valuate, Filter, CloseAccounts
+   -- fails on both inputs or hands Query.Into the same partition and day lists that agree day by
+   day in date, normalized prices and, up to order, in their transactions (valued postings, value
+   adjustments and closing transactions: the same multiset) *)
+Theorem C05_balance_days_perm : forall cfg sds1 sds2,
   Permutation sds1 sds2 -> sd_syntactic sds1 -> no_conflicting_prices sds1 ->
   ceq (fun a b => Forall2 DIok (fst a) (fst b) /\ snd a = snd b) (balance_days cfg sds1) (balance_days cfg sds2).
 Proof. exact balance_days_perm. Qed.
-Print Assumptions C05_balance_days_perm_partial.
+Print Assumptions C05_balance_days_perm.
+
+(* (b) Query.Into: the report trees have the same shape and per node the same bindings
+   (date, commodity) -> amount; a node's amounts list is in first-insertion order, so the trees
+   are equal only up to the order of these lists ([report_eq]) *)
+Theorem C05_balance_report_perm : forall cfg sds1 sds2,
+  Permutation sds1 sds2 -> sd_syntactic sds1 -> no_conflicting_prices sds1 ->
+  ceq (fun a b => report_eq (fst a) (fst b) /\ snd a = snd b) (balance_report cfg sds1) (balance_report cfg sds2).
+Proof. exact balance_report_perm. Qed.
+Print Assumptions C05_balance_report_perm.
+
+(* (c) the renderer looks amounts up by key, sorts the commodity column and sums with the
+   commutative and associative Dec.add: it does not see that order *)
+Theorem C05_render_order_blind : forall cfg r r' dates,
+  report_eq r r' -> render_report cfg r dates = render_report cfg r' dates.
+Proof. exact render_report_eq. Qed.
+Print Assumptions C05_render_order_blind.
 
 (* [balance_days] is Cli.balance_report without its last stage *)
 Theorem C05_balance_report_is_days_then_query : forall cfg ds,
